@@ -2,7 +2,7 @@
    Model/DataState.v is the stateful reading of Data.get_scores (caches, heap of array objects with
    identity, all in-place writes); Model/Data.v is the pure answer of a freshly built dataset. *)
 From Coq Require Import ZArith QArith List Bool.
-From VF Require Import Base.Num Model.Data Model.Cal Model.DataQ Model.DataState Model.DataStateQ Proofs.C18_proofs Proofs.C18_frame.
+From VF Require Import Base.Num Model.Data Model.Cal Model.DataQ Model.DataState Model.DataStateQ Proofs.C18_proofs Proofs.C18_frame Proofs.C18_refine.
 Import ListNotations.
 Open Scope Z_scope.
 
@@ -41,7 +41,7 @@ Print Assumptions C18_history_independence_refuted_without_copy.
 (* FOR HISTORIES OF ANY LENGTH (induction over the request list, invariant: the handed-out objects, the
    cached field arrays and the heap bound; Proofs/C18_frame.v): with the repair in place, the arrays
    returned by a call are never altered by any later sequence of calls -- "earlier results stay what
-   they were".  Together with C18_repeated_request_same_objects_partial (a repeated request returns
+   they were".  Together with C18_repeated_request_same_objects (a repeated request returns
    those very objects) this is the REPEATABILITY half of the property, for every dataset, value type,
    option set and history. *)
 Theorem C18_returned_arrays_never_altered :
@@ -51,19 +51,43 @@ Theorem C18_returned_arrays_never_altered :
 Proof. exact returned_arrays_never_altered. Qed.
 Print Assumptions C18_returned_arrays_never_altered.
 
-(* PARTIAL (general statements proved so far; the invariant proof that EVERY history of the
-   repaired step function answers like a fresh dataset is work in progress -- until then that
-   statement is carried by the exhaustive-history correspondence and the falsifier of ./check C18):
-   repeating a request returns the very same objects without touching the state; the in-place
-   -obsrange mask is idempotent, so applying it again for a later request cannot change an array. *)
-Theorem C18_repeated_request_same_objects_partial :
+(* HISTORY INDEPENDENCE, for histories of ANY length (refinement of the stateful model to the pure one;
+   Proofs/C18_refine.v: invariant = heap discipline of C18_frame + "every cached field array holds the
+   propagated array of a fresh load, up to the idempotent -obsrange mask" + "every cached answer holds
+   the pure answer" + "observation arrays are not aliased with other fields"):
+   whatever requests were made before -- any fields, inputs, axes, slices, in any order, any number --
+   the repaired get_scores answers a request with exactly the arrays [pure] = Data.get_scores /
+   Data.get_scores_all of a freshly built dataset computes, and fails exactly when it fails.
+   [pure] is the model the dataset properties C01-C04, C11, C14 are proved about and that the
+   correspondence check compares with the real verif.data.Data on every run. *)
+Theorem C18_answers_independent_of_history :
+  forall V vltb vsub vdiv axis_of (d : data V) hist rq,
+  match step V vltb vsub vdiv true axis_of d (fst (run V vltb vsub vdiv true axis_of d (init V) hist)) rq with
+  | OK (s', ids) => pure V vltb vsub vdiv axis_of d rq = OK (contents V s' ids)
+  | Error e => pure V vltb vsub vdiv axis_of d rq = Error e
+  end.
+Proof. exact answers_like_fresh. Qed.
+Print Assumptions C18_answers_independent_of_history.
+
+(* one call, from any state satisfying the invariant: the answer is the pure one and the invariant is kept *)
+Theorem C18_one_call_refines :
+  forall V vltb vsub vdiv axis_of (d : data V) s rq, FULL V vltb vsub vdiv axis_of d s ->
+  match step V vltb vsub vdiv true axis_of d s rq with
+  | OK (s', ids) => pure V vltb vsub vdiv axis_of d rq = OK (contents V s' ids) /\ FULL V vltb vsub vdiv axis_of d s'
+  | Error e => pure V vltb vsub vdiv axis_of d rq = Error e
+  end.
+Proof. exact step_refines. Qed.
+Print Assumptions C18_one_call_refines.
+
+(* two further facts used above, stated on their own: *)
+Theorem C18_repeated_request_same_objects :
   forall V vltb vsub vdiv copy_all axis_of (d : data V) (s : state V) rq p,
   find (fun p => key_eqb rq (fst p)) (scache V s) = Some p ->
   step V vltb vsub vdiv copy_all axis_of d s rq = OK (s, snd p).
 Proof. exact step_cache_hit. Qed.
 
-Theorem C18_obsrange_mask_idempotent_partial : forall V vltb r (c : cube V),
+Theorem C18_obsrange_mask_idempotent : forall V vltb r (c : cube V),
   map (map (map (mask_obs_range V vltb r))) (map (map (map (mask_obs_range V vltb r))) c)
   = map (map (map (mask_obs_range V vltb r))) c.
 Proof. exact mask_cube_idempotent. Qed.
-Print Assumptions C18_repeated_request_same_objects_partial.
+Print Assumptions C18_repeated_request_same_objects.
